@@ -60,6 +60,23 @@ func c13GrammarP(r *mon.Run, s string, pinned bool) (*ljson.Number, bool) {
 					r.Violate("cmp", s+" ? "+s[:i], fmt.Sprintf("NewNumber accepts %q, but Cmp with its own mantissa %q is %d; exact arithmetic says %d", s, s[:i], got, want), cs)
 				}
 				r.Count("huge_exponent_accepted_and_compared_with_mantissa", 1)
+			} else if !ok && okm && merr == nil && dm.Digits != "" {
+				// the exponent does not fit a machine word: the number written is still not its mantissa; it lies
+				// beyond it (positive exponent) or between it and zero (negative exponent)
+				want := 1
+				if strings.ContainsRune(s[i:], '-') {
+					want = -1
+				}
+				if dm.Neg {
+					want = -want
+				}
+				var got int
+				if p := mon.Guard(func() { got = n.Cmp(nm) }); p != nil {
+					r.Violate("panic", "Number.Cmp/"+p.Site, fmt.Sprintf("Cmp(%q, %q) panicked: %s", s, s[:i], p.Value), cs)
+				} else if got != want {
+					r.Violate("cmp", s+" ? "+s[:i], fmt.Sprintf("NewNumber accepts %q, but Cmp with its own mantissa %q is %d; exact arithmetic says %d", s, s[:i], got, want), cs)
+				}
+				r.Count("huge_exponent_accepted_and_compared_with_mantissa", 1)
 			}
 		}
 		return nil, false
@@ -286,7 +303,9 @@ func c13Run(r *mon.Run) {
 		}
 		// exponents at the machine-word boundaries (judged for not panicking / not exhausting memory)
 		for _, e := range []string{"2147483647", "2147483648", "4294967295", "4294967296", "9223372036854775806", "9223372036854775807", "9223372036854775808",
-			"18446744073709551615", "18446744073709551616", "1000001", "1000000", "999999"} {
+			"18446744073709551615", "18446744073709551616", "18446744073709551617", "18446744073709551618", "18446744073709551619", "18446744073709551620", "18446744073709551625",
+			"18446744073709551626", "36893488147419103232", "36893488147419103233", "184467440737095516160", "184467440737095516161", "340282366920938463463374607431768211456", "340282366920938463463374607431768211457",
+			"00018446744073709551617", "4294967297", "1000001", "1000000", "999999"} {
 			for _, m := range []string{"1", "12", "1.5", "-1", "0.001", "123456789012345678901234567890"} {
 				for _, sign := range []string{"", "+", "-"} {
 					c13Grammar(r, m+"e"+sign+e)
